@@ -46,6 +46,10 @@ class Division(Contract):
                             continue
                         rule = ('trunc', 'floor', 'around')[(i + 2 * j + k) % 3]
                         yield dict(op=op, x=list(x), y=list(y), method=method, rule=rule)
+                        if k % 20 == 0:
+                            # operands the library derived itself: an element read from an array, a shallow copy
+                            yield dict(op=op, x=list(x), y=list(y), method=method, rule=rule, xder='item', yder='copy')
+                            yield dict(op=op, x=list(x), y=list(y), method=method, rule=rule, xder='copy', yder='item')
                         if method == 'repr' and (x[2] <= 0 or y[2] <= 0):
                             yield dict(op=op, x=list(x), y=list(y), method=method, rule=rule, vint=True)
 
@@ -57,8 +61,12 @@ class Division(Contract):
 
     def run(self, cfg, P, inp):
         sx, wx, fx = cfg['x']; sy, wy, fy = cfg['y']
-        x = make_fxp(P, sx, wx, fx, codes=inp['cx'], shape=(), cfg={'op_method': cfg['method'], 'rounding': cfg['rule']}, vdtype=int if (cfg.get('vint') and fx <= 0) else float)
-        y = make_fxp(P, sy, wy, fy, codes=inp['cy'], shape=(), vdtype=int if (cfg.get('vint') and fy <= 0) else float)
+        if cfg.get('xder'):
+            x = derived_fxp(P, cfg['xder'], sx, wx, fx, inp['cx'], (), cfg={'op_method': cfg['method'], 'rounding': cfg['rule']}, vdtype=float)
+            y = derived_fxp(P, cfg['yder'], sy, wy, fy, inp['cy'], (), vdtype=float)
+        else:
+            x = make_fxp(P, sx, wx, fx, codes=inp['cx'], shape=(), cfg={'op_method': cfg['method'], 'rounding': cfg['rule']}, vdtype=int if (cfg.get('vint') and fx <= 0) else float)
+            y = make_fxp(P, sy, wy, fy, codes=inp['cy'], shape=(), vdtype=int if (cfg.get('vint') and fy <= 0) else float)
         bx, by = dict(x.__dict__), dict(y.__dict__)
         z = {'truediv': lambda: x / y, 'floordiv': lambda: x // y, 'mod': lambda: x % y}[cfg['op']]()
         o = obs_fxp(z)
